@@ -60,7 +60,7 @@ m = {
  "engines": [{"name": "symgo", "path": "/verif/symgo", "serves_properties": sorted(CLAIMED),
               "kind_free_text": "path-based symbolic interpreter for go/ssa (fork of x/tools/go/ssa/interp) + SMT-LIB2 over z3; reflect/sync/fmt/sort models; native parser bridge; native replay"}],
  "checks": checks,
- "notes": "Properties are added as their checks run clean on the unchanged (repaired) tree. Fix commits in /repo and known findings are listed in /verif/known_findings.json.",
+ "notes": "All 20 properties are claimed; every check runs clean on the repaired tree. The 15 fix: commits in /repo are listed in /verif/known_findings.json (status fixed; nothing is suppressed). One clause of C10 - every byte string makes each entry point return normally - is outside the claim: the ANTLR lexer/parser cannot be encoded by the hand-written executor (DESIGN.md section 8); the other clauses of C10 are decided. Seeded changes and the checks that catch them: /verif/seeded and DESIGN.md section 9.",
  "not_applicable": [{"property_id": p["id"], "reason": NOT_YET} for p in props if p["id"] not in CLAIMED],
 }
 json.dump(m, open('/verif/MANIFEST.json', 'w'), indent=1)
